@@ -3,6 +3,7 @@
 package main
 
 import (
+	"github.com/DemoHn/Zn/pkg/common"
 	"bytes"
 	"encoding/json"
 	"net/http"
@@ -25,7 +26,15 @@ func main() {
 	hlib.Main(commands)
 }
 
-func libs() []*r.Library { return []*r.Library{libJson.Export(), libFile.Export()} }
+// the @HTTP library is registered the way stdlib/http registers it (that package does not compile in this tree):
+// its two types live in pkg/common and are process-wide values
+func httpLib() *r.Library {
+	return r.NewLibrary("@HTTP").
+		RegisterClass("HTTP请求", common.CLASS_HttpRequest).
+		RegisterClass("HTTP响应", common.CLASS_HttpResponse)
+}
+
+func libs() []*r.Library { return []*r.Library{libJson.Export(), libFile.Export(), httpLib()} }
 
 func outcome(elem r.Element, err error, disp string) map[string]interface{} {
 	lines := strings.Split(disp, "\n")
